@@ -425,7 +425,7 @@ class KeyedSet(Generic[ItemType, KeyType], MutableSet, KeyedBase):  # pylint: di
         # non-hashable (only their keys need to be hashable).
         if isinstance(other, KeyedSet):
             return self._dict == other._dict
-        if isinstance(other, set):
+        if isinstance(other, (set, frozenset)):
             try:
                 return set(self._dict.values()) == other
             except TypeError:
